@@ -92,6 +92,9 @@ func (c CurlyRouter) matchesRouteByPathTokens(routeTokens, requestTokens []strin
 				if matchesRemainder {
 					break
 				}
+			} else if end := strings.Index(routeToken, "}"); end != -1 && !strings.HasSuffix(requestToken, routeToken[end+1:]) {
+				// a literal suffix after the variable (e.g. {var}.foo) must be present
+				return false, 0, 0
 			}
 		} else { // no { prefix
 			if requestToken != routeToken {
